@@ -102,6 +102,10 @@ def gen_grids(ctx, count):
         ncell = prod(ns)
         periodic = rng.random() < 0.8
         layers = rng.choice([0, 1, 1, 2]) if ncell <= 200 else rng.choice([0, 1])
+        if periodic and ncell <= 60 and rng.random() < 0.3:
+            # more neighbour layers than cells in some direction: the layers wrap around the torus more than once
+            # (seeded change C16-10: a single conditional wrap instead of the modulus)
+            layers = min(ns) + rng.choice([1, 2, 3])
         # relative_cell / translate go through float midpoints (cell_max + cell_min) / 2: the sum overflows for
         # L >= 2^1023 and cells shrink to a few floats for subnormal L; the index relations are claimed (and
         # run) for 2^-1000 <= L <= 2^1000 only, the partition part for every length
